@@ -22,6 +22,7 @@ type Group struct {
 	Classes []string // obligation classes kept (nil: all)
 	NoCt    bool     // ignore contracts (pure safety sweep)
 	OnlyCt  bool     // only functions that have a contract tagged with this property
+	Narrow  bool     // value-changing integer conversions must be provably exact (C13)
 }
 
 var safetyClasses = []string{"alloc", "index", "nil", "typeassert", "div", "shift", "panic", "pre", "auto-inv-init", "auto-inv-step", "auto-decreases", "decreases", "inv-init", "inv-step", "cover", "frame"}
@@ -55,6 +56,24 @@ func init() {
 		Assume: []string{
 			"stack size: only recursion depth is bounded (each ReadDataType level consumes input), not stack bytes",
 			"allocation volume is not a panic: a huge make() from a 4-byte length is reported as a note, not an obligation",
+		}})
+}
+
+var c13Classes = []string{"post", "pre", "narrow", "cover", "inv-init", "inv-step", "frame"}
+
+func init() {
+	reg(&PropSpec{ID: "C13", Title: "Numeric conversions never lose information silently", DesignRef: "DESIGN.md §4 C13",
+		Groups: []Group{
+			// every function of conversions.go and math.go (narrowing helpers, exact arithmetic)
+			{Funcs: `^datacodec\.(u?int(8|16|32|64)?To[A-Za-z0-9]+|stringToInt(8|16|32|64)|bigIntTo[A-Za-z0-9]+|float64ToFloat32|addExact)$`, Classes: c13Classes, Narrow: true},
+			// the CQL-type dispatchers: one clause family per accepted Go representation
+			{Funcs: `^datacodec\.convert(To|From)(Int(8|16|32|64)|Float(32|64)|Int32Date|Int64Time|Int64Timestamp|Boolean|BigInt)$`, Classes: c13Classes, Narrow: true},
+			{Funcs: `^datacodec\.(readDuration|ConvertTimeToEpochDays|ConvertDurationToNanosOfDay|ConvertNanosOfDayToDuration)$`, Classes: c13Classes, Narrow: true},
+		},
+		Assume: []string{
+			"int and uint are 64 bits wide (strconv.IntSize == 64); the intSize == 32 branches are proved against the 32-bit ranges as well",
+			"floorDiv, floorMod and multiplyExact are NOT under proof: their statements need a 64x64-bit product or division, undecided by z3 4.8.12, z3 5.1.0 and cvc5 1.0.3 within 30 s (DESIGN.md §9); they are listed as undecided, not claimed",
+			"big.Float accuracy reporting (Float64() returning big.Exact) is trusted",
 		}})
 }
 
